@@ -19,7 +19,7 @@ import (
 // shape, override annotation and setting of the C10 harnesses, CreatePodFromDaemonSetReplicaSet
 // leaves the replica set, the setting and the node exactly as they were.
 func ZZ_C17_creationWritesNoSharedObject() {
-	in := zzC10Pick()
+	in := zzC10Pick(true)
 	rs, node, setting := zzC10Build(in)
 	rsBefore, nodeBefore := rs.DeepCopy(), node.DeepCopy()
 	settingBefore := setting.DeepCopy() // nil-safe
